@@ -56,6 +56,12 @@ def observe(cmd, args):
             try: m = Marker(str(r.marker))
             except InvalidMarker: return "str(r.marker) is not a marker: %r" % str(r.marker)
             if m != r.marker or str(m) != str(r.marker): return "r.marker differs from Marker(str(r.marker))"
+        # a Requirement is a plain mutable record: changing one object's parts must not change what the same text parses to
+        before = show(parse(args[0]))
+        r.extras.add("zz-injected")
+        after = show(parse(args[0]))
+        r.extras.discard("zz-injected")
+        if before != after: return "adding an extra to one Requirement object changed what the same text parses to: %r -> %r" % (before, after)
         return "ok"
     if cmd == "law.r.decompose":
         # args: rendered string, JSON {name, extras, clauses (texts), url, marker (text)} - the structure it was rendered from
